@@ -468,6 +468,39 @@ pub fn step_adm(sim: &mut Sim, ctx: &mut Ctx, adm: &AdmSwarm) -> Option<Tx> {
             let ma = *ctx.rng.pick(&us);
             Tx::one("group_admin", ix::set_freeze(g.key, ma, g.admins.admin, ctx.rng.chance(1, 2)))
         }
+        12 if model::staked_settings_of(&sim.store, &g.key).is_some() && ctx.rng.chance(1, 2) => {
+            // staked-collateral settings: edited by the group admin, propagated by anybody
+            let settings = model::staked_settings_of(&sim.store, &g.key)?;
+            let staked: Vec<crate::world::BankInfo> = g.banks.iter().filter(|x| x.staked.is_some()).cloned().collect();
+            match ctx.rng.below(6) {
+                0 | 1 => {
+                    let a_i = *ctx.rng.pick(&[0.0f64, 0.3, 0.5, 0.8, 1.0, 1.01, 1.5, -0.1]);
+                    let a_m = *ctx.rng.pick(&[0.0f64, 0.25, 0.5, 0.9, 1.0, 1.5, 2.0, 2.01]);
+                    // another well-formed Pyth account of the same world as a new oracle, sometimes
+                    let feeds: Vec<Pubkey> = g.banks.iter().filter(|x| x.oracle == crate::world::OracleKind::Pyth).map(|x| x.oracle_key).collect();
+                    let cfg = marginfi::instructions::StakedSettingsEditConfig {
+                        oracle: if ctx.rng.chance(1, 4) && !feeds.is_empty() { Some(*ctx.rng.pick(&feeds)) } else { None },
+                        asset_weight_init: some!(ctx.rng, 1, 2, w(a_i)),
+                        asset_weight_maint: some!(ctx.rng, 1, 2, w(a_m)),
+                        deposit_limit: some!(ctx.rng, 1, 3, ctx.rng.u64() >> ctx.rng.below(50)),
+                        total_asset_value_init_limit: some!(ctx.rng, 1, 3, *ctx.rng.pick(&[0u64, 1, 1000, 1_000_000])),
+                        oracle_max_age: some!(ctx.rng, 1, 3, *ctx.rng.pick(&[0u16, 5, 9, 10, 60, 600, u16::MAX])),
+                        risk_tier: some!(ctx.rng, 1, 4, if ctx.rng.chance(1, 2) { marginfi_type_crate::types::RiskTier::Isolated } else { marginfi_type_crate::types::RiskTier::Collateral }),
+                    };
+                    let who = if ctx.rng.chance(1, 8) { sim.stats.fault("admin_ix_by_wrong_role"); g.admins.risk } else { g.admins.admin };
+                    Tx::one("group_admin", ix::edit_staked_settings(g.key, who, cfg))
+                }
+                2 => {
+                    // propagation to a bank that is not staked collateral must be refused
+                    Tx::one("anyone", ix::propagate_staked_settings(g.key, b.keys.bank, vec![ix::ro(settings.oracle)]))
+                }
+                _ => {
+                    let t = if staked.is_empty() { b.clone() } else { ctx.rng.pick(&staked).clone() };
+                    let rem = if ctx.rng.chance(1, 6) { vec![] } else { vec![ix::ro(settings.oracle)] };
+                    Tx::one("anyone", ix::propagate_staked_settings(g.key, t.keys.bank, rem))
+                }
+            }
+        }
         12 => {
             let bank = bank?;
             match bank.config.oracle_setup {
